@@ -16,6 +16,8 @@ inductive Child where
   | plain (id : Nat)                      -- an ordinary element
   | choice (id : Nat) (chosen : Option Nat) -- a choice wrapper; `chosen` = id of the selected member's value
   | contained (id : Nat) (inner : Option Nat) -- ContainedResource / Any: the resource inside
+  | marker (id : Nat)                     -- the extension google/fhir's JSON parser puts on a primitive without a
+                                          -- value (`…/primitiveHasNoValue`): proto bookkeeping, not an element
 deriving DecidableEq, Repr
 
 structure FieldDesc where
@@ -32,6 +34,7 @@ structure MsgDesc where
   isReference : Bool
   refString : Option Nat   -- id of the synthesised reference string (none: no reference set)
   primOk : Bool            -- `system.From(message)` succeeds (the message is a FHIR primitive)
+  noValue : Bool           -- the message carries the no-value marker: an element with an id or extensions and no value
   fields : List FieldDesc
 deriving DecidableEq, Repr
 
@@ -53,6 +56,7 @@ def unwrapChild : Child → List Out
   | .plain id => [.node id]
   | .choice id chosen => match chosen with | some c => [.node c] | none => [.node id]
   | .contained _ inner => match inner with | some r => [.node r] | none => []   -- an empty wrapper holds no element
+  | .marker _ => []                                                                -- never yielded as an element
 
 /-- where a requested name lands on a message whose fields are `names` (proto name, JSON name) -/
 inductive Slot where
@@ -82,7 +86,7 @@ def resolveSlot (names : List (String × String)) (isRef dateLike : Bool) (name 
 def MsgDesc.names (m : MsgDesc) : List (String × String) := m.fields.map fun f => (f.proto, f.json)
 
 def emit (m : MsgDesc) (selfId : Nat) (f : FieldDesc) : Res (List Out) :=
-  if !f.isMsg then (if m.primOk then .ok [.prim selfId] else .err "cant-be-cast")
+  if !f.isMsg then (if m.noValue then .ok [] else if m.primOk then .ok [.prim selfId] else .err "cant-be-cast")
   else .ok (f.vals.flatMap unwrapChild)
 
 /-- `FieldExpression.Evaluate` on ONE message (`selfId` = its identity) -/
@@ -93,7 +97,7 @@ def fieldStep (name snake : String) (selfId : Nat) (m : MsgDesc) : Res (List Out
     | some f => emit m selfId f
     | none => .err "invalid-field")   -- not reachable: the index comes from `names`
   | .synthRef => .ok (match m.refString with | some s => [.synthRef s] | none => [])
-  | .synthValue => .ok [.synthValue]
+  | .synthValue => .ok (if m.noValue then [] else [.synthValue])
   | .invalid => .err "invalid-field"
 
 /-- the step over a whole collection of messages: results concatenated in order; the first error wins -/
